@@ -38,11 +38,29 @@ def main(argv=None) -> int:
         from .report import Ctx
 
         ctx = Ctx(a.prop, a.tier)
-        rc = mod.run(ctx)
-        if a.tier == "thorough" and rc == 0:
+        st = None
+        if a.tier == "thorough":
             from . import selftest
 
-            rc = selftest.run_for_property(a.prop, ctx_rc=rc)
+            st = selftest.run_for_property(a.prop)
+            ctx.extra["self_test"] = {k: v for k, v in st.items() if k != "mutant_details"}
+            ctx.extra["self_test"]["mutants"] = [{"name": m["name"], "status": m["status"]} for m in st["mutant_details"]]
+            ctx.extra["mutants_generated"] = st["mutants_generated"]
+            ctx.extra["mutants_detected"] = st["mutants_detected"]
+            ctx.extra["neutral_variants_silent"] = st["neutral_variants_silent"]
+        rc = mod.run(ctx)
+        if st is not None:
+            print(
+                f"[{a.prop}] self-test: {st['mutants_detected']}/{st['mutants_generated']} breaking mutants detected "
+                f"({st['mutants_skipped']} skipped), {st['neutral_variants_silent']}/{st['neutral_variants']} neutral variants silent"
+            )
+            if not st["ok"] and rc == 0:
+                for m in st["mutants_missed"]:
+                    print(f"[{a.prop}] self-test: MISSED mutant '{m['name']}' (rc={m.get('rc')}, rules reported {m.get('rules')}, expected {m.get('expected_rule')})")
+                for n in st["neutral_differs"]:
+                    print(f"[{a.prop}] self-test: neutral variant '{n['kind']}' changed the verdict (rc={n['rc']}): {n['lines']}")
+                print(f"ANALYSIS-ERROR property={a.prop}: the checker failed its own self-test; its verdict is not to be believed")
+                return 2
         return rc
     except AnalysisError as ex:
         print(f"ANALYSIS-ERROR property={a.prop}: {ex}")
